@@ -61,3 +61,7 @@ def basis_covariance(inp):
             if err > 1e-6:
                 bad.append({'spectrum': spectrum, 'unique': unique, 'max_deviation_from_covariance': err})
     return {'violates': bool(bad), 'detail': bad}
+
+
+# thorough tier (bounded native sweeps): (function, inputs, obligation of the open finding it reproduces or None)
+THOROUGH = [('bath_eigensystem', {}, None), ('basis_covariance', {}, None)]
